@@ -39,7 +39,7 @@ def setup_worker(ctx):
             mon.events["contract_posterior"] += 1
             ref = nb_ref.posterior_from_params(self.transformer.vocabulary, self.estimator.class_prior, self.estimator.log_likelihood, doc)
             ok = all(isinstance(x, float) and math.isfinite(x) for x in res) and abs(math.exp(res[0]) + math.exp(res[1]) - 1.0) < 1e-9 \
-                and abs(res[0] - ref[0]) < TOL and abs(res[1] - ref[1]) < TOL
+                and abs(res[0] - ref[0]) < TOL * (1 + abs(ref[0])) and abs(res[1] - ref[1]) < TOL * (1 + abs(ref[1]))
             if not ok:
                 st["breaches"].append("predict_log_proba(%r) = %r, recomputed from the fitted parameters: %r" % (list(doc), res, ref))
         return True
@@ -53,6 +53,10 @@ def gen_cases(tier, seed):
     cases += [{"k": "parse", "i": i, "own": i % 4 == 3} for i in range(1500 if tier == "thorough" else 300)]
     lens = sorted(set(list(range(14, 300, 1 if tier == "thorough" else 5)) + [31, 32, 33, 63, 64, 65, 100, 127, 128, 129, 200, 255, 256, 257, 299, 300, 512, 1000]))
     cases += [{"k": "parse", "i": i, "own": False, "pad": n_} for i, n_ in enumerate(lens)]
+    # very long rule traces straight into the shipped model: the class log-likelihoods fall far below the range in which
+    # exp() is representable, the posterior must still be the textbook one (and finite)
+    long_lens = [20, 35, 50, 80, 120, 150, 200, 300, 500, 1000, 3000]
+    cases += [{"k": "long", "i": i, "n": n_} for i, n_ in enumerate(long_lens * (4 if tier == "thorough" else 1))]
     if tier == "thorough":
         cases.append({"k": "retrain"})
     return cases
@@ -182,6 +186,38 @@ def run_case(case, ctx):
         nt = bool(rec) and mon.events["contract_posterior"] > n0
         key = "parse/%d/%s" % (case["i"], "own" if case["own"] else "shipped")
         obs = {"text": text, "scoring_calls": len(rec), "contract_evaluations": mon.events["contract_posterior"] - n0}
+    elif k == "long":
+        r = C.rng(ctx["seed"], "C16l", case["i"])
+        inner = L.m._DEFAULT_SCORER
+        if type(inner).__name__ != "NaiveBayesScorer":
+            return {"st": "inconc", "msg": "default scorer is %s, not the shipped model" % type(inner).__name__}
+        mdl = inner._model
+        vocab = mdl.transformer.vocabulary
+        uni = sorted(f for f in vocab if " " not in f)
+        tri = sorted(f for f in vocab if f.count(" ") == 2)
+        docs = [[r.choice(uni) for _ in range(case["n"])]]
+        d2 = []
+        while len(d2) < case["n"]:          # seen trigrams chained: every n-gram order contributes
+            d2 += r.choice(tri).split(" ")
+        docs.append(d2[:case["n"]])
+        docs.append([r.choice(uni)] * case["n"])
+        n0 = mon.events["contract_posterior"]
+        for doc in docs:
+            mon.events["prediction_compared"] += 1
+            e = nb_ref.posterior_from_params(vocab, mdl.estimator.class_prior, mdl.estimator.log_likelihood, doc)
+            try:
+                g = mdl.predict_log_proba([doc])[0]
+            except Breach:
+                raise
+            except Exception as ex:
+                probs.append("predict_log_proba on a trace of %d rules (%r...) raised %s: %s" % (len(doc), doc[:4], type(ex).__name__, ex))
+                continue
+            if not (all(isinstance(x, float) and math.isfinite(x) for x in g)
+                    and all(abs(a - b) < TOL * (1 + abs(b)) + 1e-12 * len(doc) for a, b in zip(g, e))):
+                probs.append("trace of %d rules (%r...): model %r, textbook %r" % (len(doc), doc[:4], g, e))
+        nt = True
+        key = "long/%d/%d" % (case["i"], case["n"])
+        obs = {"trace_length": case["n"], "traces": len(docs), "contract_evaluations": mon.events["contract_posterior"] - n0}
     else:
         from ctparse.corpus import run_corpus
         from ctparse.time.corpus import corpus
